@@ -98,14 +98,13 @@ Definition inv_supply (G : Z) (s : state) : Prop :=
 
 (* the step of the invariant needs only the transaction-level checks and the
    unspent-set update (whatever the header checks decided) *)
-Lemma apply_preserves_supply G s b head spent :
-  process_txns (utxo s) head (b_txns b) = Pass ->
+Lemma apply_preserves_supply_ok G s b head spent :
+  txns_ok (utxo s) head (b_txns b) ->
   get_array (all_ins (b_txns b)) (utxo s) = Some spent ->
   insert_ok s b = true ->
   block_in_range b -> inv_supply G s -> inv_supply G (apply_block s b spent).
 Proof.
-  intros Hp Hg Hi Hr [I1 [I2 I3]].
-  destruct (process_txns_inv _ _ _ Hp) as [_ [P1 [P2 [P3 P4]]]].
+  intros [P1 [P2 [P3 P4]]] Hg Hi Hr [I1 [I2 I3]].
   unfold inv_supply. rewrite apply_block_utxo. repeat split.
   - apply new_utxo_nodup; assumption.
   - apply Forall_app. split.
@@ -115,6 +114,12 @@ Proof.
     pose proof (remove_ids_sum _ _ _ I1 P4 Hg) as Hs.
     pose proof (spent_sum _ _ _ _ P1 I2 Hr Hg) as Hsp. lia.
 Qed.
+Lemma apply_preserves_supply G s b head spent :
+  process_txns (utxo s) head (b_txns b) = Pass ->
+  get_array (all_ins (b_txns b)) (utxo s) = Some spent ->
+  insert_ok s b = true ->
+  block_in_range b -> inv_supply G s -> inv_supply G (apply_block s b spent).
+Proof. intros Hp. apply apply_preserves_supply_ok with (head := head). apply process_txns_ok. assumption. Qed.
 
 Lemma exec_preserves_supply G s b s' :
   exec_block s b = (s', Accepted) -> block_in_range b -> inv_supply G s -> inv_supply G s'.
